@@ -1454,7 +1454,7 @@ class ScheduleMon(Monitor):
             s = w.dev[name]
             if s.current_state != r['state']:
                 raise Violation('state', f'{name}.current_state={s.current_state!r} at t={w.env.now}, timetable says {r["state"]!r}')
-            got = [getattr(o, 'name', '?') for o in s._registered_objects]
+            got = [getattr(o, '_hkey', getattr(o, 'name', '?')) for o in s._registered_objects]
             if got != [o for o, m in r['reg']]:
                 raise Violation('registry', f'{name}: registered objects {got}, expected {[o for o, m in r["reg"]]}')
 
